@@ -37,6 +37,19 @@ def main():
             return f
 
         sh.tokenize.open = spy_tokenize_open
+    # ... or read the bytes in one piece (pathlib goes through io.open) and decode them itself: a binary open has no encoding of its
+    # own, which is recorded as such; that the bytes are then decoded as UTF-8 whatever the locale says shows in the outcomes
+    import io as _io_mod
+
+    real_io_open = _io_mod.open
+
+    def spy_io_open(file, mode="r", *a, **k):
+        f = real_io_open(file, mode, *a, **k)
+        if str(file).endswith(".xsh"):
+            opened.append((os.path.basename(str(file)), getattr(f, "encoding", None) or "binary"))
+        return f
+
+    _io_mod.open = spy_io_open
 
     class Timeout(BaseException):
         pass
@@ -89,8 +102,19 @@ def main():
             import tokenize as _pytok
 
             undecodable = None
-            enc, _ = _pytok.detect_encoding(_io.BytesIO(raw).readline)
+            # (the declaration is looked for in the first two lines whatever the line ends are, as CPython's own tokenizer does;
+            # the standard library's detect_encoding splits at "\n" only)
+            import re as _re
+
+            head = iter([l + b"\n" for l in _re.split(rb"\r\n|\r|\n", raw, maxsplit=2)[:2]])
+            enc, _ = _pytok.detect_encoding(lambda: next(head, b""))
             text = raw.decode(enc)
+            # cross-check of this reference decoding against CPython itself: the bytes and the text must compile to the same tree
+            try:
+                if ast.dump(ast.parse(raw)) != ast.dump(ast.parse(text)):
+                    undecodable = "reference-decoding-disagrees-with-cpython"
+            except (SyntaxError, ValueError):
+                pass
         except (SyntaxError, UnicodeDecodeError, LookupError) as e:
             # the bytes are not a text at all for CPython (a declaration naming an unknown encoding, bytes invalid in the declared one):
             # there is no "string with the same content" to compare with; only the file side's refusal is observed
@@ -115,6 +139,39 @@ def main():
         with builtins.open(same, "wb") as f:
             f.write(data)
         c["rewritten"] = _nopath(sig(XonshParser.parse_file, pathlib.Path(same)), same)
+    # third pass: the same bytes through a path that can be read only once and cannot seek (a named pipe, as /dev/stdin is)
+    import threading
+
+    fifo = os.path.join(casedir, "_pipe.xsh")
+    try:
+        os.mkfifo(fifo)
+    except (OSError, AttributeError):
+        fifo = None
+    for n, c in list(zip(names, out["cases"]))[:: max(1, len(names) // 60)] if fifo else ():
+        with builtins.open(os.path.join(casedir, n), "rb") as f:
+            data = f.read()
+        if len(data) > 60000:
+            continue
+
+        def feed(data=data):
+            try:
+                with builtins.open(fifo, "wb") as w:
+                    w.write(data)
+            except OSError:
+                pass
+
+        t = threading.Thread(target=feed, daemon=True)
+        t.start()
+        c["piped"] = _nopath(sig(XonshParser.parse_file, pathlib.Path(fifo)), fifo)
+        t.join(0.5)
+        if t.is_alive():
+            # the parser never opened the path: let the writer go
+            try:
+                fd = os.open(fifo, os.O_RDONLY | os.O_NONBLOCK)
+                t.join(2)
+                os.close(fd)
+            except OSError:
+                pass
     sys.stdout.write(json.dumps(out, ensure_ascii=True))
 
 
